@@ -743,10 +743,31 @@ func (fr *Frame) execGo(st *State, x *ssa.Go) {
 		fr.top.goCaps = append(fr.top.goCaps, fr.refComps(v)...)
 	}
 	fr.top.goCapVars = map[string]bool{}
+	fr.top.goCapStale = map[string]bool{}
 	if !x.Call.IsInvoke() {
 		if fv := fr.val(st, x.Call.Value); fv.K == KClosure {
 			for _, v := range fv.Fn.FreeVars {
 				fr.top.goCapVars[v.Name()] = true
+			}
+			// which captured variables live across iterations of the loop the spawn sits in: those whose
+			// declaration (the ssa.Alloc of the captured cell) is not inside that loop
+			var inner *loopInfo
+			for _, li := range fr.loops {
+				if li.blocks[x.Block()] && (inner == nil || len(li.blocks) < len(inner.blocks)) {
+					inner = li
+				}
+			}
+			if inner != nil {
+				for i, b := range fv.Binds {
+					if b.K != KCellPtr || i >= len(fv.Fn.FreeVars) {
+						continue
+					}
+					for al, id := range fr.cellOf {
+						if id == b.Cell && !inner.blocks[al.Block()] {
+							fr.top.goCapStale[fv.Fn.FreeVars[i].Name()] = true
+						}
+					}
+				}
 			}
 			for _, b := range fv.Binds {
 				if b.K == KCellPtr {
@@ -977,7 +998,23 @@ func (fr *Frame) callHooks(st *State, names string, args []Val, pos token.Pos) {
 				}
 				cc := *c
 				cc.E, cc.Text = p, ExprString(p)
-				fr.oblige(st, "callsite", nm, fr.evalBool(sc, p), &cc, pos)
+				// a clause that can no longer be evaluated at this call (the callee's parameters changed
+				// shape under it) is an obligation that fails, not a tool error
+				g := func() (g Term) {
+					defer func() {
+						if e := recover(); e != nil {
+							switch e.(type) {
+							case contractErr, unsupportedErr:
+								fr.top.note(fmt.Sprintf("callsite clause %s cannot be evaluated at this call of %s any more: %v", nm, name, e))
+								g = False
+							default:
+								panic(e)
+							}
+						}
+					}()
+					return fr.evalBool(sc, p)
+				}()
+				fr.oblige(st, "callsite", nm, g, &cc, pos)
 			}
 		}
 	}
